@@ -19,6 +19,10 @@ import (
 	"github.com/fatedier/frp/verif"
 )
 
+// Metrics sinks do not touch any frp table (assumption, listed in the evidence).
+//
+//verif:effectfree-iface ~/server/metrics.ServerMetrics
+
 const (
 	evAcquire = "ports.Manager).Acquire"
 	evRelease = "ports.Manager).Release"
@@ -589,4 +593,52 @@ func verif_handleUserTCPConnection(pxy *BaseProxy, userConn net.Conn) {
 	if verif.Called(evPoolConn) && verif.RetErr(evPoolConn, 1) == nil {
 		verif.Ensures(verif.CalledWith("Conn).Close", 0, verif.Ret[net.Conn](evPoolConn, 0)), "work_connection_closed_when_done")
 	}
+}
+
+// ---------------------------------------------------------------- C03: the UDP proxy's work-connection goroutines
+
+// Reader (one arbitrary iteration): a UDPPacket read from the work connection
+// is handed, unchanged, to the proxy's reply channel (from which ForwardUserConn
+// writes it to the user it is tagged with); heartbeats are skipped; nothing
+// else is put on that channel.
+//
+//verif:loopbody (*~/server/proxy.UDPProxy).Run$2 1 check=verifUDPReaderStep args=pxy
+func verifUDPReaderStep(pxy *UDPProxy) bool {
+	if !verif.CalledInIter("msg.ReadMsg") || verif.IterRet[error]("msg.ReadMsg", 1) != nil {
+		return false
+	}
+	m := verif.IterRet[msg.Message]("msg.ReadMsg", 0)
+	p, isPacket := m.(*msg.UDPPacket)
+	if isPacket {
+		return verif.Sent(pxy.readCh, p)
+	}
+	return !verif.SentOn(pxy.readCh)
+}
+
+//verif:contract (*~/server/proxy.UDPProxy).Run$2
+//verif:props C03
+//verif:kinds loop,post,pre
+func verif_UDPProxy_workConnReader(conn net.Conn) {
+	verif.ResetEvents()
+	verif.CallTarget(conn)
+}
+
+// Sender (one arbitrary iteration that took a packet from the proxy's send
+// channel): exactly that packet is written to the work connection.
+//
+//verif:loopbody (*~/server/proxy.UDPProxy).Run$3 1 check=verifUDPSenderStep args=conn
+func verifUDPSenderStep(conn net.Conn) bool {
+	if !verif.CalledInIter("msg.WriteMsg") {
+		return false
+	}
+	return verif.CalledWithInIter("msg.WriteMsg", 0, conn) && verif.IterRet[error]("msg.WriteMsg", 0) == nil &&
+		verif.Same(verif.IterArg[any]("msg.WriteMsg", 1), any(verif.IterArg[*msg.UDPPacket]("recv", 1)))
+}
+
+//verif:contract (*~/server/proxy.UDPProxy).Run$3
+//verif:props C03
+//verif:kinds loop,post,pre
+func verif_UDPProxy_workConnSender(conn net.Conn, ctx context.Context) {
+	verif.ResetEvents()
+	verif.CallTarget(conn, ctx)
 }
